@@ -29,7 +29,8 @@ from hsim.worlds.udp import Arrival, UdpWorld
 
 PROPERTY = "C07"
 CHUNK = {"quick": 16, "thorough": 40}
-PROBES = ["plain_subscriber_raised", "raise_then_later_hook_takes", "subscriber_take_then_addon_drop", "subscriber_take_then_command_channel",
+PROBES = ["subscriber_block_left_by_exception", "subscriber_task_cancelled", "message_after_subscriber_gone",
+          "plain_subscriber_raised", "raise_then_later_hook_takes", "subscriber_take_then_addon_drop", "subscriber_take_then_command_channel",
           "delayed_resend_of_copy", "two_rlv_commands_both_handled", "rlv_partially_handled",
           "truthy_with_pending_take", "packet_hook_swallowed", "illegal_followup_rejected", "lifecycle_hook_raised",
           "send_orig_by_addon", "mutated_forward", "take_false_subscriber_saw_original", "late_send_of_observed_original",
@@ -97,7 +98,11 @@ def gen_plan(rng: random.Random, tier: str) -> dict:
                                                ["ChatFromViewer", "ChatFromSimulator"]]),
                           "take": rng.random() < 0.7, "mode": rng.choice(["wait_for", "async"]),
                           "consume": rng.choice(["resend", "discard", "resend_later", "send_original_late"]),
-                          "timeout": rng.choice([None, 0.05, 0.5])})
+                          "timeout": rng.choice([None, 0.05, 0.5]),
+                          # how a subscribe_async block ends: normally, by an exception leaving the block, or by
+                          # the task being cancelled from outside
+                          "exit": rng.choice(["normal", "normal", "raise", "cancel"]),
+                          "cancel_after": rng.choice([0.0, 0.02, 0.2])})
             continue
         if x < 0.15:
             steps.append({"at": t, "op": "amc", "v": 0, "r": r})
@@ -162,6 +167,8 @@ def simplify_step(step):
             yield {**step, "mode": "wait_for"}
         if step.get("consume") != "discard":
             yield {**step, "consume": "discard"}
+        if step.get("exit", "normal") != "normal":
+            yield {**step, "exit": "normal"}
 
 
 def simplify_plan(plan):
@@ -556,6 +563,12 @@ def run_plan(plan: dict) -> RunResult:
             def predicate(msg):
                 # runs synchronously right before the repo's handler takes / observes the message
                 tag = tag_of_message(msg)
+                if sub.get("gone"):
+                    # the subscriber's block has ended (normally, by exception or by cancellation): nothing may
+                    # still be taking messages on its behalf
+                    violate("C07/isolation/stale-subscriber-still-subscribed", tag=tag, how=sub["gone"],
+                            mode=st["mode"], take=take)
+                    return False
                 if take:
                     rec.add(kind="take", tag=tag, by="subscriber", effective=not msg.finalized)
                 else:
@@ -607,15 +620,29 @@ def run_plan(plan: dict) -> RunResult:
                     consume(f.result())
                 fut.add_done_callback(_done)
             else:
+                how = st.get("exit", "normal")
+
                 async def _runner():
-                    with handler.subscribe_async(tuple(st["names"]), predicate=predicate, take=take) as get_msg:
-                        for _ in range(2):
-                            try:
-                                msg = await asyncio.wait_for(get_msg(), timeout=st.get("timeout") or 0.3)
-                            except asyncio.TimeoutError:
-                                return
-                            consume(msg)
-                loop.create_task(_runner())
+                    try:
+                        with handler.subscribe_async(tuple(st["names"]), predicate=predicate, take=take) as get_msg:
+                            for _ in range(2):
+                                try:
+                                    msg = await asyncio.wait_for(get_msg(), timeout=st.get("timeout") or 0.3)
+                                except asyncio.TimeoutError:
+                                    if how == "raise":
+                                        res.probe("subscriber_block_left_by_exception")
+                                        raise            # the exception leaves the `with` block
+                                    return
+                                consume(msg)
+                    except asyncio.TimeoutError:
+                        pass
+                    except asyncio.CancelledError:
+                        res.probe("subscriber_task_cancelled")
+                    finally:
+                        sub["gone"] = how
+                task = loop.create_task(_runner())
+                if how == "cancel":
+                    loop.call_later(st.get("cancel_after", 0.0), task.cancel)
 
         driver.ops["chat"] = op_chat
         driver.ops["amc"] = op_amc
@@ -676,6 +703,8 @@ def run_plan(plan: dict) -> RunResult:
             st = beh.get(tag)
             if st is None:
                 return
+            if any(sb.get("gone") for sb in subs):
+                res.probe("message_after_subscriber_gone")
             n_add = cfg["n_addons"]
             # ---- expected hook sequence (first-truthy short circuit, exceptions swallowed) -----------
             want_seq = []
